@@ -105,7 +105,7 @@ def same_on(fi, fm, keys):
 
 class Stream:
     """Generates instances + compile cases, runs both sides, parses."""
-    def __init__(self, chk, tier, types, widths=(1, 2, 3), flavours=(0, 1, 2), ninst=None, with_viz=False, longarcs=False):
+    def __init__(self, chk, tier, types, widths=(1, 2, 3), flavours=(0, 1, 2), ninst=None, with_viz=False, longarcs=False, stores=False):
         self.chk = chk
         rng = Rng(chk.seed)
         n = ninst if ninst is not None else (150 if tier == "quick" else 1500)
@@ -117,6 +117,8 @@ class Stream:
                 I = gen_layered(r, nvars=r.range(3, 5), per_layer=r.range(2, 4), depth_free=True, irrelevance=True, dominance=0)
             elif kind == 3:
                 I = gen_layered(r, nvars=r.range(2, 4), per_layer=2, dom_max=2, dominance=0)
+            elif stores:
+                I = gen_layered(r, nvars=r.range(4, 6), per_layer=r.range(1, 3), dom_max=r.range(2, 3), dominance=r.choice([0, 1, 2]))
             else:
                 I = gen_layered(r, nvars=r.range(4, 6), per_layer=r.range(3, 5), dom_max=r.range(2, 3), dominance=0)
             H = I.hbase()
@@ -129,12 +131,15 @@ class Stream:
                 lbs = [IMIN]
                 if vstar is not None: lbs += [vstar - 2, vstar, vstar + 1]
                 else: lbs += [0]
+                if stores and r.chance(1, 3):
+                    lines.append("RS")
                 for flv in flavours:
                     if flv != 2 and I.notimp: continue      # plain diagrams expand every state on every variable; long arcs are C15
                     for ct in types:
                         for w in widths:
                             for lb in (lbs if ct != 0 else lbs[:2]):
-                                lines.append(mline(flv, ct, w, lb, 0, 0, 0, root))
+                                uc, ud = (1, 1 if I.domkind == 1 else 0) if stores else (0, 0)
+                                lines.append(mline(flv, ct, w, lb, uc, ud, 0, root))
                                 metas.append({"inst": i, "root": root, "flv": flv, "ct": ct, "w": w, "lb": lb, "vstar": vstar})
                                 if with_viz:
                                     for fl in range(64):
@@ -149,13 +154,14 @@ class Stream:
         for k in range(len(shards)):
             pi = 0; pm = 0
             for (idx, blk) in shards[k]:
-                n = len(blk) - 1
+                n = sum(1 for l in blk[1:] if l[:2] in ("M ", "V "))
                 res[idx] = (oi[k][pi:pi + n], om[k][pm:pm + n]); pi += n; pm += n
         for idx, (I, metas) in enumerate(self.meta):
             il, ml = res[idx]
             rows = []
+            cases = [l for l in self.blocks[idx][1:] if l[:2] in ("M ", "V ")]
             for j, meta in enumerate(metas[1:]):
-                rows.append((meta, il[j] if j < len(il) else "MISSING", ml[j] if j < len(ml) else "MISSING", self.blocks[idx][j + 1]))
+                rows.append((meta, il[j] if j < len(il) else "MISSING", ml[j] if j < len(ml) else "MISSING", cases[j]))
             self.results.append((I, rows))
         return self.results
 
@@ -380,7 +386,8 @@ def eval_diagram_properties(results, want):
 
 # ================================================================================ the checks
 PINNED = {   # theorem names pinned per property file (filled in as the proofs land)
-    "C06": [], "C07": [], "C08": [], "C12": [], "C13": [], "C20": [],
+    "C06": [], "C07": [], "C08": [], "C12": [], "C20": [],
+    "C13": ["C13_times_debug_nonzero", "C13_times_release_nonzero", "C13_times_release_stays_usize", "C13_divby_nonzero"],
 }
 OPEN = {
     "C06": ["C06_bound (relaxed best value dominates every completion beating the incumbent)",
@@ -555,6 +562,9 @@ def check_diagram(pid, tier):
                             fails.append((pid, "faithful", "edge %d -> %d (x%d = %d, cost %d) is not an arc of the diagram" % (a, b, x, v, c), ctx)); break
                     if term != rterm: fails.append((pid, "faithful", "terminal node drawn inconsistently across configurations", ctx))
                     if not rterm: stats["empty_last_layer"] += 1
+    if pid == "C13":
+        import check_simple
+        check_simple.c13_combinators(chk, tier)
     for f in fails:
         chk.violation("property", "%s [%s]: %s" % (f[0], f[1], f[2]), f[3])
     for (I, meta, li, lm, case, why) in dis[:50]:
